@@ -51,6 +51,37 @@ pub fn lib_decode(schema: &Schema, bytes: &[u8]) -> Result<(apache_avro::types::
     }
 }
 
+/// A conforming `Read` that hands out at most `chunk` bytes per call (a pipe, a socket, a small
+/// `BufReader`): code that takes one `read` for a `read_exact` fails on it.
+pub struct ChunkReader<'a> {
+    pub data: &'a [u8],
+    pub pos: usize,
+    pub chunk: usize,
+}
+
+impl std::io::Read for ChunkReader<'_> {
+    fn read(&mut self, buf: &mut [u8]) -> std::io::Result<usize> {
+        let n = buf.len().min(self.chunk).min(self.data.len() - self.pos);
+        buf[..n].copy_from_slice(&self.data[self.pos..self.pos + n]);
+        self.pos += n;
+        Ok(n)
+    }
+}
+
+/// Decode one datum from a source that delivers `chunk` bytes per read; returns (value, bytes consumed).
+pub fn lib_decode_chunked(schema: &Schema, bytes: &[u8], chunk: usize) -> Result<(apache_avro::types::Value, usize), String> {
+    match guarded(|| {
+        let r = GenericDatumReader::builder(schema).build()?;
+        let mut src = ChunkReader { data: bytes, pos: 0, chunk };
+        let v = r.read_value(&mut src)?;
+        Ok::<_, apache_avro::Error>((v, src.pos))
+    }) {
+        Ok(Ok(x)) => Ok(x),
+        Ok(Err(e)) => Err(format!("error: {e}")),
+        Err(p) => Err(format!("panic: {p}")),
+    }
+}
+
 fn case_json(sc: &Sc, v: &V, extra: J) -> J {
     json!({"schema": sc.json, "value": v.short(), "detail": extra})
 }
@@ -153,6 +184,26 @@ fn c01_schema(sc: &Sc, filter: &Filter, depth: usize) -> Stats {
                 let back = from_lib(&got, &sc.s, &sc.env);
                 match back {
                     Ok(g) if veq(&g, v) && consumed == b1.len() => {
+                        // the same bytes from a source that delivers 1, 2, 3 or 7 bytes per read
+                        let mut chunk_problem = None;
+                        for chunk in [1usize, 2, 3, 7] {
+                            if b1.len() < 2 && chunk > 1 {
+                                break;
+                            }
+                            st.transitions += 1;
+                            match lib_decode_chunked(&schema, &input, chunk) {
+                                Ok((g2, n2)) if n2 == b1.len() && from_lib(&g2, &sc.s, &sc.env).is_ok_and(|x| veq(&x, v)) => {}
+                                other => {
+                                    chunk_problem = Some((chunk, format!("{other:?}")));
+                                    break;
+                                }
+                            }
+                        }
+                        if let Some((chunk, what)) = chunk_problem {
+                            st.outcome("chunked-source-differs");
+                            st.violate(order, "decoding from a source that delivers a few bytes per read differs from decoding the same bytes from a slice", case_json(sc, v, json!({"bytes": hex(&b1), "bytes_per_read": chunk, "decoded_from_slice": ev::trunc(&format!("{got:?}"), 200), "decoded_from_chunked_source": ev::trunc(&what, 300)})), replay_json(sc, vi, depth));
+                            continue;
+                        }
                         st.outcome(&format!("ok-{}", sc.s.kind()));
                         if !b1.is_empty() {
                             st.class(class_of(sc, v, b1.len()));
@@ -296,6 +347,17 @@ fn c02_schema(sc: &Sc, filter: &Filter, depth: usize, cap: usize) -> Stats {
             input.extend_from_slice(&[0xAA, 0x55]);
             match lib_decode(&schema, &input) {
                 Ok((got, consumed)) if consumed == l.len() && from_lib(&got, &sc.s, &sc.env).is_ok_and(|g| veq(&g, v)) => {
+                    // the schema-aware deserializer must frame the same layout the same way (layouts other than
+                    // the canonical one are where the two decoders can drift apart: several blocks, byte sizes)
+                    if li > 0 {
+                        st.transitions += 1;
+                        let de = crate::c06::deser_decode(&schema, &input);
+                        if de != Ok(l.len()) {
+                            st.outcome("ref2lib-deser-bad");
+                            st.violate(order, "the schema-aware deserializer does not frame a spec-legal layout like the generic decoder", case_json(sc, v, json!({"layout": hex(l), "layout_index": li, "generic_decoder_consumed": consumed, "deserializer": format!("{de:?}")})), replay_json(sc, vi, depth));
+                            continue;
+                        }
+                    }
                     st.outcome("ref2lib-ok");
                     st.class(format!("{}|{}|{}", sc.s.shape(&sc.env, 3), l.len(), li.min(40)));
                     if li > 0 {
